@@ -117,9 +117,9 @@ check("C07", "rocq-core", "proof",
 check("C08", "rocq-core", "proof",
       "Theorems in coq/core/Properties/C08.v over Orswot.v: a purge keeps live entries and versions, removes exactly the tombstones older than "
       "their origin's cut-off; the cut-off never moves backwards, so a purged delete stays rejected (any key, any source, after any further "
-      "events); and by a simulation between the purging and the never-purging replica, for every timely event sequence with purges anywhere both "
+      "operations, purges and merges of other replicas' states); and by a simulation between the purging and the never-purging replica, for every timely event sequence with purges anywhere both "
       "answer every lookup identically, with the last-writer-wins result (no deleted key reappears, no live key is lost). Tied to orswot.rs by "
-      "exhaustive timely histories x all purge placements, late-arrival and purge-rich random histories (hx-orswot mode=c08).",
+      "exhaustive timely histories x all purge placements, late-arrival, purge-rich and purge-then-merge random histories (hx-orswot mode=c08).",
       "Trusted: Coq kernel, model Orswot.v, extraction + driver, Rust executor. Premises: valid stamps, tick >= 1 (K1), operations arrive "
       "less than one forgiveness period behind what the replica has seen. The hourly purge task and storage.remove_tombstones are C02's subject.")
 check("C09", "rocq-core", "proof",
@@ -221,9 +221,9 @@ check("C19", "rocq-core", "other",
       "hence observably identical (live ids, tombstones, stamps, accept/refuse decisions and results of any further operation sequence); "
       "sets are determined by their contents; bytes that do not decode yield an error. Tied to replication_impl.rs / client.rs / actor.rs "
       "by the real ReplicationService and ReplicationClient::get_state over the in-process transport (hx-transfer): all state shapes x "
-      "sizes 0..40 (every offset of the nested slice mod 16), 64..1000 (10000 thorough), 1..200 origins, both sources, purged prefixes; "
+      "sizes 0..40 (every offset of the nested slice mod 16), 64..2500 (10000 thorough; thousands of tombstones), 1..200 origins, both sources, purged prefixes; "
       "received set compared with the model's and, by the oracle, with the sender's (contents, diff both ways, will_apply probes, "
-      "follow-up operations); a peer answering with damaged nested bytes must produce an error.",
+      "follow-up operations) and with what the sender's storage holds; a peer answering with damaged nested bytes must produce an error.",
       "The byte-level facts (rkyv layout, alignment and validity of the nested cast) are outside any Gallina model: exercised on the "
       "states run, not proved. Trusted: Coq kernel, models Transfer.v/Actor.v/Orswot.v, extraction + driver, Rust executor, in-process "
       "transport hook.",
